@@ -552,8 +552,13 @@ fn run_case(prop: SProp, case: &Case, l: &mut Local) -> Option<(String, String)>
             continue;
         }
         match st.pre {
-            1 => ps.reset(),
-            2 => ps.tt.resize(st.arg),
+            // (results discarded on purpose: the harness must keep compiling if a setter starts returning something)
+            1 => {
+                let _ = ps.reset();
+            }
+            2 => {
+                let _ = ps.tt.resize(st.arg);
+            }
             _ => {}
         }
         l.evaluations += 1;
@@ -670,8 +675,13 @@ fn run_chain_transcripts(case: &Case) -> Result<Vec<String>, (String, String)> {
             continue;
         }
         match st.pre {
-            1 => ps.reset(),
-            2 => ps.tt.resize(st.arg),
+            // (results discarded on purpose: the harness must keep compiling if a setter starts returning something)
+            1 => {
+                let _ = ps.reset();
+            }
+            2 => {
+                let _ = ps.tt.resize(st.arg);
+            }
             _ => {}
         }
         out.push(transcript(&do_search(&g, &mut ps, &st.limit, 0)?));
@@ -736,10 +746,12 @@ pub fn run_c12(args: &Args, seed: u64, tier: &str, report: &Report) -> String {
             if let Some((g2, p2)) = build_game(&st.fen, &st.moves) {
                 if !p2.legal_moves().is_empty() {
                     match st.pre {
-                        1 => used.reset(),
+                        1 => {
+                            let _ = used.reset();
+                        }
                         2 => {
-                            used.tt.resize(st.arg);
-                            used.tt.resize(case.hash_mb)
+                            let _ = used.tt.resize(st.arg);
+                            let _ = used.tt.resize(case.hash_mb);
                         }
                         _ => {}
                     }
@@ -747,7 +759,7 @@ pub fn run_c12(args: &Args, seed: u64, tier: &str, report: &Report) -> String {
                 }
             }
         }
-        used.reset();
+        let _ = used.reset();
         l.feat("reset_then_compare_with_fresh");
         let u = do_search(&g, &mut used, &last.limit, 0).ok().map(|o| transcript(&o));
         l.evaluations += 2;
